@@ -139,6 +139,24 @@ def translate(repo: str):
         if s != [f"ETrans {via}", "@reroute"]:
             raise TranslateError(f"{fn}: expected [ETrans {via}; reroute_invocations], got {s}")
         recs[fn] = s
+    # a refused recovery transition (the owner moved on) must only skip that invocation: the handler `continue`s; a `return`,
+    # `break` or re-raise abandons the invocations this run has already marked, before their reroute
+    rec_continues = True
+    for fn in ("recover_pending_invocations", "recover_running_invocations"):
+        f = _func(ct, fn)
+        loops = [n for n in f.body if isinstance(n, ast.For)]
+        if len(loops) != 1:
+            raise TranslateError(f"{fn}: expected one loop")
+        tries = [n for n in ast.walk(loops[0]) if isinstance(n, ast.Try)]
+        if len(tries) != 1:
+            rec_continues = False      # no handler at all: a refusal escapes
+            continue
+        for h in tries[0].handlers:
+            names = ast.dump(h.type) if h.type is not None else "*"
+            if not any(x in names for x in ("InvocationStatusError", "PynencError", "Exception", "*")):
+                rec_continues = False  # the refusal raised by a lost race is not caught
+            if any(isinstance(x, (ast.Return, ast.Break, ast.Raise)) for x in ast.walk(h)):
+                rec_continues = False
     # poll: the pop precedes every status write of get_additional_invocations_to_run
     ga = _method(bo, "BaseOrchestrator", "get_additional_invocations_to_run")
     s = _seq(ga.body)
@@ -175,7 +193,8 @@ def translate(repo: str):
              f"Definition gen_p_finish_ok : list eff := {lit(fin_ok)}.",
              f"Definition gen_p_finish_err : list eff := {lit(fin_err)}.",
              f"Definition gen_pop_before_claim : bool := {'true' if pop_first else 'false'}.",
-             f"Definition gen_poll_exhausted : bool := {'true' if polls_ok else 'false'}.", ""]
+             f"Definition gen_poll_exhausted : bool := {'true' if polls_ok else 'false'}.",
+             f"Definition gen_recovery_continues : bool := {'true' if rec_continues else 'false'}.", ""]
     info = {"retry": retry, "reroute": reroute, "kill": kill, "finish_ok": fin_ok, "finish_err": fin_err, "poll": s, "recovery": recs, "poll_call_sites": sites}
     return "\n".join(lines), info
 
